@@ -137,6 +137,8 @@ def run_scenario(run: Run, scen: dict, rng: random.Random):
                         tc = comp.compile(c)
                     if fold and recs:
                         fold_recs[(fold, opt)] = recs[-1]
+                    if foldcert.UNOBSERVABLE["flag"]:
+                        run.feature("unobservable", "build_folded_graph")
                 comps[(fold, opt)] = (comp, tc)
             except Exception as e:  # noqa: BLE001
                 run.violation("compile-crash", scen, f"compilation with fold={fold}, optimize={opt} raised {type(e).__name__}: {e}")
